@@ -156,13 +156,40 @@ class NameLookupRewriteVisitor(NodeTransformerBase):
             return self.apply_transform(node)
         return node
 
+    def _visit_defaults(self, args: ast.arguments) -> None:
+        # Default values are evaluated where the function is defined:
+        # in ``lambda x=x: x`` the default is the outer ``x``
+        args.defaults = [self.visit(d) for d in args.defaults]
+        args.kw_defaults = [
+            self.visit(d) if d is not None else None
+            for d in args.kw_defaults
+        ]
+
+    def _visit_parameters(self, args: ast.arguments) -> None:
+        for arg in args.posonlyargs + args.args + args.kwonlyargs:
+            self.visit(arg)
+        for arg in (args.vararg, args.kwarg):
+            if arg is not None:
+                self.visit(arg)
+
     def visit_FunctionDef(self, node: ast.FunctionDef) -> ast.AST:
         self.scopes[-1].add(node.name)
+        node.decorator_list = [self.visit(d) for d in node.decorator_list]
+        self._visit_defaults(node.args)
         # The parameters are local to the function; what is known
         # outside of it is known inside, too
         self.scopes.append(set(self.scopes[-1]))
         try:
-            return super().generic_visit(node)
+            self._visit_parameters(node.args)
+            body = []
+            for stmt in node.body:
+                stmt = self.visit(stmt)
+                if isinstance(stmt, list):
+                    body.extend(stmt)
+                elif stmt is not None:
+                    body.append(stmt)
+            node.body = body
+            return node
         finally:
             self.scopes.pop()
 
@@ -172,9 +199,12 @@ class NameLookupRewriteVisitor(NodeTransformerBase):
         return super().generic_visit(node)
 
     def visit_Lambda(self, node: ast.Lambda) -> ast.AST:
+        self._visit_defaults(node.args)
         self.scopes.append(set(self.scopes[-1]))
         try:
-            return super().generic_visit(node)
+            self._visit_parameters(node.args)
+            node.body = self.visit(node.body)
+            return node
         finally:
             self.scopes.pop()
 
